@@ -63,6 +63,7 @@ type mcase struct {
 	Pattern []int       `json:"pattern,omitempty"` // per face: 0 absent, 1 present, 2 flipped
 	Tris    [][]float64 `json:"triangles,omitempty"`
 	Boxes   [][]float64 `json:"boxes,omitempty"`
+	Storage int         `json:"storage_variant,omitempty"` // 0 as listed; 1, 2: corners of every face rotated, faces inserted in reverse (2)
 }
 
 func flat(ts []tri) [][]float64 {
@@ -261,9 +262,29 @@ func applyPattern(base []tri, pat []int) []tri {
 	return out
 }
 
-func checkDiagnostics(r *ev.Run, name string, base []tri, pat []int, closedBase bool) {
-	ts := applyPattern(base, pat)
-	c := mcase{Kind: "diagnostics", Mesh: name, Pattern: pat, Tris: flat(ts)}
+// restore: the same faces stored differently - the corners of face i rotated by (i*variant + variant) mod 3 and, for
+// variant 2, the faces inserted in reverse order. The surface, its orientation and therefore every diagnostic are
+// unchanged; code that reads "the first corner" or stops at the first match is not.
+func restore(ts []tri, variant int) []tri {
+	if variant == 0 {
+		return ts
+	}
+	out := make([]tri, len(ts))
+	for i, t := range ts {
+		k := (i*variant + variant) % 3
+		out[i] = tri{t[k], t[(k+1)%3], t[(k+2)%3]}
+	}
+	if variant == 2 {
+		for i, j := 0, len(out)-1; i < j; i, j = i+1, j-1 {
+			out[i], out[j] = out[j], out[i]
+		}
+	}
+	return out
+}
+
+func checkDiagnostics(r *ev.Run, name string, base []tri, pat []int, closedBase bool, variant int) {
+	ts := restore(applyPattern(base, pat), variant)
+	c := mcase{Kind: "diagnostics", Mesh: name, Pattern: pat, Tris: flat(ts), Storage: variant}
 	m := mesh(ts)
 	r.Eval(1)
 	viol := func(kind, msg string) {
@@ -307,7 +328,7 @@ func checkDiagnostics(r *ev.Run, name string, base []tri, pat []int, closedBase 
 		}
 	}
 	if full {
-		r.NontrivialKey(fmt.Sprint("repair", name, pat))
+		r.NontrivialKey(fmt.Sprint("repair", name, pat, variant))
 		var rm *model3d.Mesh
 		var cnt int
 		if p := ev.Try(func() { rm, cnt = m.RepairNormalsMajority() }); p != "" {
@@ -336,7 +357,7 @@ func checkDiagnostics(r *ev.Run, name string, base []tri, pat []int, closedBase 
 		}
 	}
 	if nr || len(sv) > 0 || len(ie) > 0 {
-		r.NontrivialKey(fmt.Sprint("diag", name, pat))
+		r.NontrivialKey(fmt.Sprint("diag", name, pat, variant))
 	}
 }
 
@@ -913,7 +934,7 @@ func main() {
 				bases[k] = v
 			}
 			b := bases[c.Mesh]
-			checkDiagnostics(r, c.Mesh, b, c.Pattern, c.Mesh == "octa" || c.Mesh == "prism" || c.Mesh == "cube")
+			checkDiagnostics(r, c.Mesh, b, c.Pattern, c.Mesh == "octa" || c.Mesh == "prism" || c.Mesh == "cube", c.Storage)
 		case "repair":
 			checkRepairJitter(r, c.Mesh, named(c.Mesh), 3, 1)
 		case "nesting":
@@ -971,7 +992,14 @@ func main() {
 		if r.Thorough() {
 			patterns(len(cube), 3, func(p []int) { jobs = append(jobs, job{"cube", cube, p, true}) })
 		}
-		ev.Parallel(len(jobs), 0, func(i int) { checkDiagnostics(r, jobs[i].name, jobs[i].base, jobs[i].pat, jobs[i].closed) })
+		ev.Parallel(len(jobs), 0, func(i int) {
+			checkDiagnostics(r, jobs[i].name, jobs[i].base, jobs[i].pat, jobs[i].closed, 0)
+			// every 4th pattern (thorough: every one) again in the two other storage variants
+			if i%4 == 1 || r.Thorough() {
+				checkDiagnostics(r, jobs[i].name, jobs[i].base, jobs[i].pat, jobs[i].closed, 1)
+				checkDiagnostics(r, jobs[i].name, jobs[i].base, jobs[i].pat, jobs[i].closed, 2)
+			}
+		})
 		r.Set("diagnostic_patterns", len(jobs))
 		r.Sample(mcase{Kind: "diagnostics", Mesh: "octa", Pattern: []int{1, 1, 0, 2, 1, 1, 1, 2}})
 	})
